@@ -291,6 +291,7 @@ type Session struct {
 	curMs   int
 	feasUnknown int
 	feasSkip    int
+	restarts    int
 }
 
 const prelude = `(set-option :produce-models true)
@@ -306,27 +307,75 @@ const prelude = `(set-option :produce-models true)
 `
 
 func newSession(softMs int, logPath string) (*Session, error) {
-	cmd := exec.Command("z3-new", "-in", "-smt2", fmt.Sprintf("-t:%d", softMs))
-	in, err := cmd.StdinPipe()
-	if err != nil {
-		return nil, err
-	}
-	out, err := cmd.StdoutPipe()
-	if err != nil {
-		return nil, err
-	}
-	cmd.Stderr = nil
-	if err := cmd.Start(); err != nil {
-		return nil, err
-	}
-	s := &Session{cmd: cmd, in: in, out: bufio.NewReaderSize(out, 1<<16), softMs: softMs, feasMs: 150, curMs: softMs}
+	s := &Session{softMs: softMs, feasMs: 150}
 	if logPath != "" {
 		s.logf, _ = os.Create(logPath)
 	}
+	if err := s.start(); err != nil {
+		return nil, err
+	}
+	return s, nil
+}
+
+// start launches the solver process and brings it to the current scope (prelude, then the mirrored
+// lines with their scope marks).
+func (s *Session) start() error {
+	// The per-query limit is z3's deterministic resource counter (about 6.5 million units per
+	// second of an idle core here), not wall-clock time: the outcome of a query must not depend on
+	// how busy the machine is. The wall-clock limit is only a safety net.
+	cmd := exec.Command("z3-new", "-in", "-smt2", fmt.Sprintf("-t:%d", s.softMs*20))
+	in, err := cmd.StdinPipe()
+	if err != nil {
+		return err
+	}
+	out, err := cmd.StdoutPipe()
+	if err != nil {
+		return err
+	}
+	cmd.Stderr = nil
+	if err := cmd.Start(); err != nil {
+		return err
+	}
+	s.cmd, s.in, s.out = cmd, in, bufio.NewReaderSize(out, 1<<16)
+	s.curMs = 0
 	for _, l := range strings.Split(strings.TrimSpace(prelude), "\n") {
 		s.raw(l)
 	}
-	return s, nil
+	mi := 0
+	for i, l := range s.lines {
+		for mi < len(s.marks) && s.marks[mi] == i {
+			s.raw("(push 1)")
+			mi++
+		}
+		s.raw(l)
+	}
+	for ; mi < len(s.marks); mi++ {
+		s.raw("(push 1)")
+	}
+	s.setLimit(s.softMs)
+	return nil
+}
+
+// restart replaces the solver process: after a query that ran into the resource limit z3 5.1.0
+// can stay in a cancelled state in which every later (push) fails.
+func (s *Session) restart() {
+	s.restarts++
+	if s.logf != nil {
+		fmt.Fprintln(s.logf, "; ---- restart ----")
+	}
+	old, oldIn := s.cmd, s.in
+	want := s.curMs
+	go func() {
+		oldIn.Close()
+		old.Process.Kill()
+		old.Wait()
+	}()
+	if err := s.start(); err != nil {
+		s.dead = true
+		s.errs = append(s.errs, "cannot restart solver: "+err.Error())
+		return
+	}
+	s.setLimit(want)
 }
 
 func (s *Session) raw(l string) {
@@ -376,9 +425,9 @@ func (s *Session) Feasible() string {
 		s.feasSkip--
 		return "unknown"
 	}
-	s.setTimeout(s.feasMs)
+	s.setLimit(s.feasMs)
 	r := s.Check()
-	s.setTimeout(s.softMs)
+	s.setLimit(s.softMs)
 	if r == "unknown" {
 		s.feasUnknown++
 		if s.feasUnknown >= 3 {
@@ -391,12 +440,15 @@ func (s *Session) Feasible() string {
 	return r
 }
 
-func (s *Session) setTimeout(ms int) {
+// rlimitPerMs converts a time budget into z3 resource units (calibrated on this machine, idle).
+const rlimitPerMs = 6500
+
+func (s *Session) setLimit(ms int) {
 	if ms <= 0 || ms == s.curMs {
 		return
 	}
 	s.curMs = ms
-	s.raw(fmt.Sprintf("(set-option :timeout %d)", ms))
+	s.raw(fmt.Sprintf("(set-option :rlimit %d)", ms*rlimitPerMs))
 }
 
 // Check returns "sat", "unsat" or "unknown".
@@ -407,7 +459,8 @@ func (s *Session) Check() string {
 	t0 := time.Now()
 	s.raw("(check-sat)")
 	s.queries++
-	for {
+	verdict := ""
+	for verdict == "" {
 		line, err := s.out.ReadString('\n')
 		if err != nil {
 			s.dead = true
@@ -418,23 +471,41 @@ func (s *Session) Check() string {
 		if s.logf != nil {
 			fmt.Fprintln(s.logf, "; -> "+line)
 		}
-		switch line {
-		case "sat", "unsat", "unknown", "timeout":
-			s.ms += time.Since(t0).Milliseconds()
-			if line == "timeout" {
-				return "unknown"
-			}
-			return line
-		case "":
-			continue
-		}
-		if strings.HasPrefix(line, "(error") {
+		switch {
+		case line == "sat" || line == "unsat" || line == "unknown" || line == "timeout":
+			verdict = line
+		case line == "":
+		case strings.HasPrefix(line, "(error"):
 			s.errs = append(s.errs, line)
-			continue
+		default:
+			// anything else: unsupported / warnings
+			s.errs = append(s.errs, "unexpected solver output: "+line)
 		}
-		// anything else: unsupported / warnings
-		s.errs = append(s.errs, "unexpected solver output: "+line)
 	}
+	s.ms += time.Since(t0).Milliseconds()
+	if verdict == "sat" || verdict == "unsat" {
+		return verdict
+	}
+	// why unknown? After running into the resource limit z3 5.1.0 can stay cancelled (every later
+	// (push) fails), so the process is replaced; "incomplete quantifiers" leaves it usable.
+	s.raw("(get-info :reason-unknown)")
+	reason := ""
+	if !s.dead {
+		line, err := s.out.ReadString('\n')
+		if err != nil {
+			s.dead = true
+			s.errs = append(s.errs, "solver died: "+err.Error())
+			return "unknown"
+		}
+		reason = strings.TrimSpace(line)
+		if s.logf != nil {
+			fmt.Fprintln(s.logf, "; -> "+reason)
+		}
+	}
+	if verdict == "timeout" || !strings.Contains(reason, "incomplete") {
+		s.restart()
+	}
+	return "unknown"
 }
 
 // Script returns a standalone script for the current scope plus extra lines.
@@ -499,20 +570,72 @@ var solvers = []solverSpec{
 
 var raceSem = make(chan struct{}, 14)
 
+// cpuMs returns the CPU time (user+system) a process has used so far.
+func cpuMs(pid int) int64 {
+	b, err := os.ReadFile(fmt.Sprintf("/proc/%d/stat", pid))
+	if err != nil {
+		return -1
+	}
+	t := string(b)
+	if i := strings.LastIndexByte(t, ')'); i >= 0 {
+		t = t[i+1:]
+	}
+	f := strings.Fields(t)
+	if len(f) < 13 {
+		return -1
+	}
+	var u, sy int64
+	fmt.Sscan(f[11], &u)
+	fmt.Sscan(f[12], &sy)
+	return (u + sy) * 10 // USER_HZ = 100
+}
+
+// runSolver runs one solver on a script. The budget ms is CPU time of the solver process, not
+// wall-clock time, so that the answer does not depend on what else the machine is doing; wall
+// time is capped at ten times the budget as a safety net.
 func runSolver(ctx context.Context, sp solverSpec, file string, ms, seed int) SolverAnswer {
 	raceSem <- struct{}{}
 	defer func() { <-raceSem }()
 	if ctx.Err() != nil {
 		return SolverAnswer{Solver: sp.name, Result: "cancelled"}
 	}
-	args := sp.args(file, ms, seed)
-	c, cancel := context.WithTimeout(ctx, time.Duration(ms+2000)*time.Millisecond)
+	wallMs := ms*10 + 5000
+	args := sp.args(file, wallMs, seed)
+	c, cancel := context.WithTimeout(ctx, time.Duration(wallMs+2000)*time.Millisecond)
 	defer cancel()
 	t0 := time.Now()
 	cmd := exec.CommandContext(c, args[0], args[1:]...)
-	out, _ := cmd.CombinedOutput()
+	var buf strings.Builder
+	cmd.Stdout = &buf
+	cmd.Stderr = &buf
+	overBudget := false
+	var used int64
+	if err := cmd.Start(); err == nil {
+		done := make(chan struct{})
+		go func() { cmd.Wait(); close(done) }()
+		tick := time.NewTicker(50 * time.Millisecond)
+	loop:
+		for {
+			select {
+			case <-done:
+				break loop
+			case <-tick.C:
+				if u := cpuMs(cmd.Process.Pid); u >= 0 {
+					used = u
+					if u > int64(ms) {
+						overBudget = true
+						cmd.Process.Kill()
+					}
+				}
+			}
+		}
+		tick.Stop()
+	}
 	el := time.Since(t0).Milliseconds()
-	text := string(out)
+	if used > 0 && used < el {
+		el = used
+	}
+	text := buf.String()
 	first := strings.TrimSpace(strings.SplitN(text, "\n", 2)[0])
 	res := "error"
 	switch first {
@@ -521,7 +644,7 @@ func runSolver(ctx context.Context, sp solverSpec, file string, ms, seed int) So
 	default:
 		if ctx.Err() != nil {
 			res = "cancelled"
-		} else if c.Err() != nil || strings.Contains(text, "timeout") || strings.Contains(text, "interrupted") {
+		} else if overBudget || c.Err() != nil || strings.Contains(text, "timeout") || strings.Contains(text, "interrupted") {
 			res = "timeout"
 		}
 	}
